@@ -193,7 +193,7 @@ func main() {
 	replay := flag.String("replay", "", "replay file")
 	execPar := flag.Int("exec-par", 0, "child mode: execute the calls given on stdin from N goroutines released together")
 	measureMode := flag.Bool("measure", false, "child mode: run the one call given on stdin and print what it allocated")
-	budget := flag.Int("budget", 0, "time budget in seconds for the generator loops (0 = 240 quick / 1500 thorough)")
+	budget := flag.Int("budget", 0, "time budget in seconds for the generator loops (0 = 240 quick / 600 thorough)")
 	execMode := flag.Bool("exec", false, "child mode: execute the calls given on stdin and print their results")
 	flag.Parse()
 	if *execMode {
@@ -222,7 +222,7 @@ func main() {
 		os.Exit(2)
 	}
 	if *budget == 0 {
-		*budget = scale(240, 1500)
+		*budget = scale(240, 600)
 	}
 	deadline = time.Now().Add(time.Duration(*budget) * time.Second)
 	checkDigest()
